@@ -417,6 +417,24 @@ theorem C10_concurrent_refines (w : Name → Nat) (pre post : List (Nat × Op)) 
           :: (serial cfg (step cfg (runAll cfg St.init (pre.map (·.2))) (.call n true raw)).1 post).2 := by
   rw [serial_out_at, C10_refines w (pre.map (·.2)) n raw hw hr hn hne]
 
+/-- **C10_lock_order_is_not_sampling_order.** Characterisation of the stated limit "the raw sample is
+    taken outside the lock": the serial order of `C10_serialisable` is the order in which the calls
+    *took the lock*, not the order in which they *read the kernel's counters*. Thread 0 reads 100, is
+    overtaken by thread 1 which reads 105 and goes through `wrap_numbers` first; thread 0's older
+    sample then looks like a backwards step (100 < 105) and is reported as 205 — and every later
+    call carries the spurious offset 105 (110 → 215) until `cache_clear()`, although the kernel's
+    counter (100, 105, 110 in sampling order) never went backwards. Each thread on its own still
+    sees non-decreasing values. The harness replays exactly this overtaking on two real threads. -/
+theorem C10_lock_order_is_not_sampling_order :
+    let acts : List Act :=
+      [.sample 0 .net [("eth0", [100])], .sample 1 .net [("eth0", [105])],
+       .acquire 1, .load 1, .store 1, .release 1,
+       .acquire 0, .load 0, .store 0, .release 0,
+       .sample 0 .net [("eth0", [110])], .acquire 0, .load 0, .store 0, .release 0]
+    (runC cfg Sys.init acts).map (·.outs)
+      = some [(1, .dict [("eth0", [105])]), (0, .dict [("eth0", [205])]), (0, .dict [("eth0", [215])])] := by
+  decide
+
 /-- **C10_unlocked_not_serialisable.** The lock is what makes this true: with `run` outside the
     lock two threads that both read the cache `{sda:100}` before either writes it back return 110
     and 105, while the serial execution of the same two bodies returns 110 and 115. -/
@@ -553,6 +571,36 @@ example : (crunAll cfg CSt.init [.call .net true [("a", [100, 100])], .call .net
       .call .net true [("a", [5, 50])]]).net
     = ⟨some [("a", [5, 50])], some [(("a", 0), 110), (("a", 1), 100)], some [("a", [("a", 0), ("a", 1)])]⟩ := by
   decide
+
+/-- **C10_indexerror_keeps_cache.** Outside the widths the front ends produce (an old tuple shorter
+    than the new one): `run` raises IndexError in the middle of its loop; `cache[name]` then still
+    holds the OLD dict (the reminders updated before the faulty field stay updated — that part is
+    in the executable model and compared with the real `wrap_numbers` by the family `ragged`). -/
+theorem C10_indexerror_keeps_cache (c : Cfg) (w : CWN) (input : Raw)
+    (h : (crun c w input).2 = .out .indexError) :
+    (crun c w input).1.cache = w.cache ∧ w.cache ≠ none := by
+  obtain ⟨cache, rems, rk⟩ := w
+  cases cache with
+  | none => simp only [crun] at h; split at h <;> simp at h
+  | some old =>
+    cases rems with
+    | none => simp [crun] at h
+    | some d =>
+      cases rk with
+      | none => simp [crun] at h
+      | some rk =>
+        simp only [crun] at h ⊢
+        cases h0 : removeDead d rk (goneKeys old input) with
+        | none => simp [h0] at h
+        | some p =>
+          obtain ⟨d0, rk0⟩ := p
+          simp only [h0] at h ⊢
+          cases h1 : keysLoop c old input d0 rk0 with
+          | mk d1 r =>
+            obtain ⟨rk1, o⟩ := r
+            cases o with
+            | none => simp
+            | some out => simp [h1] at h
 
 /-! ## Non-vacuity and the reason `cfg_good` matters -/
 
